@@ -1,7 +1,6 @@
 /- DriverOps.C17 — the generated dispatch tables, the lookup/resolution model and the report of `spellings_agree` -/
 import DriverOps.Base
 import SparseV.Model.Dispatch
-import SparseV.Props.C17
 open Lean SparseV SparseV.Gen SparseV.Dispatch
 
 namespace DriverOps
